@@ -70,6 +70,11 @@ impl Log {
         writeln!(self.imp, "{obs}").unwrap();
         self.lines += 1;
     }
+    /// Flush both files without consuming the log (a harness that has to give up in the middle of a case).
+    pub fn flush(&mut self) {
+        self.ops.flush().unwrap();
+        self.imp.flush().unwrap();
+    }
     pub fn finish(mut self) {
         self.ops.flush().unwrap();
         self.imp.flush().unwrap();
